@@ -92,6 +92,20 @@ theorem pad_src_inside (mode : PadMode) (w : List (Nat × Nat)) (s j : List Nat)
   intro b hb
   rw [padSrc_inside mode _ _ _ (hin b hb).1 (hin b hb).2]; rfl
 
+/-- the index `j ++ [0]` of the `(*n, 1)`-shaped array the setter builds -/
+theorem inRange_snoc_one (n j : List Nat) (h : inRange n j = true) : inRange (n ++ [1]) (j ++ [0]) = true := by
+  induction n generalizing j with
+  | nil =>
+    cases j with
+    | nil => simp [inRange]
+    | cons y ys => simp [inRange] at h
+  | cons x xs ih =>
+    cases j with
+    | nil => simp [inRange] at h
+    | cons y ys =>
+      simp only [List.cons_append, inRange, Bool.and_eq_true] at h ⊢
+      exact ⟨h.1, ih ys h.2⟩
+
 /-! ## the setter at field level -/
 
 theorem setValid_ok (f g : Fld) (s : VSpec) (h : setValid f s = .ok g) :
